@@ -39,6 +39,10 @@ const (
 	c10RestartW = 2
 	c10StopW    = 3
 	c10Traffic  = 4
+	// actions on the watched actor T itself
+	c10SuspendT   = 5 // T fails with an error no directive covers -> suspended (confirmed by IsSuspended)
+	c10RestartT   = 6 // T fails with an error whose directive is Restart -> restarted in place by its parent (no shutdown, not a termination)
+	c10ReinstateT = 7 // the parent reinstates the suspended T
 )
 
 const (
@@ -84,6 +88,9 @@ func (a c10Action) String() string {
 	if a.InTurn {
 		via = "ctx"
 	}
+	if a.Kind >= c10SuspendT {
+		return [...]string{"SuspendWatched", "SupervisedRestartOfWatched", "ReinstateWatched"}[a.Kind-c10SuspendT]
+	}
 	return fmt.Sprintf("%s(%s,%s)", [...]string{"Watch", "UnWatch", "Restart", "Stop", "Traffic"}[a.Kind], who, via)
 }
 
@@ -106,10 +113,13 @@ func c10Gen(t *rapid.T) c10Case {
 	n := rapid.OneOf(rapid.IntRange(0, 3), rapid.IntRange(2, 10)).Draw(t, "nseq")
 	for i := 0; i < n; i++ {
 		a := c10Action{
-			Kind:   rapid.SampledFrom([]int{c10Watch, c10Watch, c10Watch, c10Watch, c10UnWatch, c10UnWatch, c10RestartW, c10StopW, c10Traffic}).Draw(t, "kind"),
+			Kind:   rapid.SampledFrom([]int{c10Watch, c10Watch, c10Watch, c10Watch, c10Watch, c10UnWatch, c10UnWatch, c10UnWatch, c10RestartW, c10StopW, c10Traffic, c10SuspendT, c10SuspendT, c10RestartT, c10ReinstateT}).Draw(t, "kind"),
 			InTurn: rapid.Bool().Draw(t, "in_turn"),
 		}
 		a.Who = who("who")
+		if a.Kind >= c10SuspendT {
+			a.Who, a.InTurn = 0, false
+		}
 		if a.Who < 0 && (a.Kind == c10RestartW || a.Kind == c10StopW) {
 			a.Kind = c10Watch // the parent is only stopped by the termination path
 		}
@@ -161,6 +171,14 @@ type c10Tally struct {
 	Inc    int64
 }
 
+type c10ErrNoRule struct{}
+
+func (c10ErrNoRule) Error() string { return "c10 no directive for me" }
+
+type c10ErrRestart struct{}
+
+func (c10ErrRestart) Error() string { return "c10 restart me" }
+
 type c10ErrStop struct{}
 
 func (c10ErrStop) Error() string { return "c10 stop me" }
@@ -170,6 +188,7 @@ type c10Actor struct {
 	h         *c10Hist
 	preStarts atomic.Int64
 	postStops atomic.Int64
+	postStart atomic.Int64 // incarnation whose PostStart was handled
 	mu        sync.Mutex
 	byPath    map[string]int
 }
@@ -188,6 +207,8 @@ func (a *c10Actor) PostStop(*Context) error {
 
 func (a *c10Actor) Receive(ctx *ReceiveContext) {
 	switch m := ctx.Message().(type) {
+	case *PostStart:
+		a.postStart.Store(a.preStarts.Load())
 	case *Terminated:
 		p := "<nil>"
 		if m.ActorPath() != nil {
@@ -214,6 +235,10 @@ func (a *c10Actor) Receive(ctx *ReceiveContext) {
 			ctx.Shutdown()
 		case 102:
 			ctx.Err(c10ErrStop{})
+		case 103:
+			ctx.Err(c10ErrNoRule{})
+		case 104:
+			ctx.Err(c10ErrRestart{})
 		}
 		if m.Done != nil {
 			close(m.Done)
@@ -336,6 +361,7 @@ type c10MW struct {
 	watching  bool // last completed Watch/UnWatch action was Watch
 	ambiguous bool // took part in an action concurrent with the termination
 	unknown   bool // restarted since its last completed Watch/UnWatch: whether a restart keeps the watches is not specified
+	base      int  // Terminated received (and accounted for) at a supervised restart of the watched actor
 	inc       int64
 }
 
@@ -381,6 +407,40 @@ func (r *c10Run) do(a c10Action) (done chan struct{}, issued bool) {
 	}
 	close(done)
 	return done, true
+}
+
+// tally reads how many Terminated naming tPath watcher i has received.
+// Two probes: runTurn looks at the system mailbox and then at the user mailbox
+// once per iteration, so ONE user message sent after a Terminated was enqueued
+// can still overtake it (the worker may be between the two looks). The
+// iteration after that user message serves the system mailbox first, so the
+// second probe is behind every Terminated enqueued before the first was sent.
+// ok=false: inconclusive (class recorded).
+func (r *c10Run) tally(i int, tPath string) (int, bool) {
+	ctx := context.Background()
+	name := r.acts[i].name
+	var resp any
+	for k := 0; k < 2; k++ {
+		var err error
+		resp, err = Ask(ctx, r.pids[i], &c10Probe{}, c10Cap)
+		if err != nil {
+			if errors.Is(err, gerrors.ErrRequestTimeout) {
+				r.x.Class("inconclusive_probe_timeout")
+				return 0, false
+			}
+			r.fail("probe-running-watcher-fails", "Ask(probe) to %s failed: %v (model: running)", name, err)
+		}
+	}
+	tally, _ := resp.(*c10Tally)
+	if tally == nil {
+		r.fail("probe-running-watcher-fails", "probe of %s answered %v", name, resp)
+	}
+	for p, n := range tally.ByPath {
+		if p != tPath && n > 0 {
+			r.fail("terminated-names-unwatched-actor", "%s received %d Terminated(%s); it only ever watched %s", name, n, p, tPath)
+		}
+	}
+	return tally.ByPath[tPath], true
 }
 
 func c10Exec(x *vfkit.X, c c10Case) {
@@ -429,7 +489,9 @@ func c10Exec(x *vfkit.X, c c10Case) {
 	r.acts, r.pids, r.m = append(r.acts, tpa), append(r.pids, tp), append(r.m, &c10MW{running: true, watching: true, inc: 1})
 	tName := fmt.Sprintf("c10-%d-T", id)
 	r.ta = mk(tName)
-	sup := supervisor.NewSupervisor(supervisor.WithDirective(c10ErrStop{}, supervisor.StopDirective))
+	sup := supervisor.NewSupervisor(
+		supervisor.WithDirective(c10ErrStop{}, supervisor.StopDirective),
+		supervisor.WithDirective(c10ErrRestart{}, supervisor.RestartDirective))
 	r.t, err = tp.SpawnChild(ctx, tName, r.ta, WithSupervisor(sup), WithLongLived())
 	if err != nil {
 		panic(fmt.Sprintf("spawn T: %v", err))
@@ -448,7 +510,85 @@ func c10Exec(x *vfkit.X, c c10Case) {
 
 	// ---- sequential phase
 	unwatches := 0
+	tSuspended := false
+	tInc := int64(1)
 	for si, a := range c.Seq {
+		if a.Kind >= c10SuspendT {
+			switch {
+			case a.Kind == c10SuspendT && !tSuspended:
+				r.h.add("seq %d: %s", si, a)
+				if err := Tell(ctx, r.t, &c10Cmd{Kind: 103}); err != nil {
+					r.fail("tell-to-running-actor-fails", "seq %d: the failure could not be sent to the running watched actor: %v", si, err)
+				}
+				if !c10Wait(c10Cap, func() bool { return r.t.IsSuspended() }) {
+					x.Class("inconclusive_suspend_timeout")
+					return
+				}
+				tSuspended = true
+				x.Class("watched_suspended")
+			case a.Kind == c10ReinstateT && tSuspended:
+				r.h.add("seq %d: %s", si, a)
+				if err := tp.Reinstate(r.t); err != nil {
+					x.Class("inconclusive_reinstate_failed")
+					return
+				}
+				if !c10Wait(c10Cap, func() bool { return r.t.IsRunning() }) {
+					x.Class("inconclusive_reinstate_failed")
+					return
+				}
+				tSuspended = false
+				x.Class("watched_reinstated")
+			case a.Kind == c10RestartT && !tSuspended:
+				r.h.add("seq %d: %s", si, a)
+				if err := Tell(ctx, r.t, &c10Cmd{Kind: 104}); err != nil {
+					r.fail("tell-to-running-actor-fails", "seq %d: the failure could not be sent to the running watched actor: %v", si, err)
+				}
+				tInc++
+				if !c10Wait(c10Cap, func() bool {
+					return r.ta.preStarts.Load() >= tInc && r.ta.postStart.Load() >= tInc && r.t.IsRunning()
+				}) {
+					x.Class("inconclusive_watched_restart_timeout")
+					return
+				}
+				x.Class("watched_restarted_by_supervisor")
+				// A supervised restart is not a termination. Whether watchers are told
+				// at that point is not decided by the property: a watcher may have
+				// received 0 or 1; one that was told has had its notification (its watch
+				// is treated as consumed), the others keep watching and must be told
+				// when the actor really terminates.
+				for i, mw := range r.m {
+					if !mw.running {
+						continue
+					}
+					n, ok := r.tally(i, tPath)
+					if !ok {
+						return
+					}
+					got := n - mw.base
+					switch {
+					case got > 1:
+						r.fail("terminated-delivered-twice-at-restart", "%s received %d Terminated for %s during its supervised restart", r.acts[i].name, got, tName)
+					case got == 1 && !mw.watching && !mw.unknown:
+						r.fail("terminated-after-unwatch-at-restart", "%s does not watch %s but received a Terminated during its supervised restart", r.acts[i].name, tName)
+					case got == 1:
+						mw.base, mw.watching, mw.unknown = n, false, false
+						x.Class("terminated_told_at_supervised_restart")
+					}
+				}
+				// The restart re-attaches the child under its parent, which
+				// re-establishes the implicit parent watch (tree.attachNodeLocked:
+				// "reestablishes parent/child and watcher/watchee relationships"). Whether
+				// that overrides an explicit UnWatch by the parent is not specified: a
+				// parent that had unwatched may receive 0 or 1 from here on.
+				if pm := r.m[0]; pm.running && !pm.watching {
+					pm.unknown = true
+					x.Class("parent_watch_unspecified_after_child_restart")
+				}
+			default:
+				x.Class("action_skipped_watched_state")
+			}
+			continue
+		}
 		i := r.idx(a.Who)
 		mw := r.m[i]
 		if !mw.running {
@@ -527,14 +667,20 @@ func c10Exec(x *vfkit.X, c c10Case) {
 			}
 		}()
 	}
-	r.h.add("terminate T by %s, concurrent: %v", c10PathName(c.Path), c.Conc)
-	x.Class("path_" + c10PathName(c.Path))
+	path := c.Path
+	if tSuspended {
+		// a suspended actor takes no messages: only the paths that stop it from outside apply
+		path = []int{c10PathShutdown, c10PathParentStop, c10PathParentCtxStop, c10PathParentDown, c10PathKill}[c.Path%5]
+		x.Class("terminated_while_suspended")
+	}
+	r.h.add("terminate T by %s, concurrent: %v", c10PathName(path), c.Conc)
+	x.Class("path_" + c10PathName(path))
 	var termErr error
 	wg.Add(1)
 	go func() {
 		defer wg.Done()
 		<-start
-		switch c.Path {
+		switch path {
 		case c10PathShutdown:
 			termErr = r.t.Shutdown(ctx)
 		case c10PathPoisonPill:
@@ -556,9 +702,9 @@ func c10Exec(x *vfkit.X, c c10Case) {
 	close(start)
 	wg.Wait()
 	if termErr != nil {
-		r.fail("termination-call-fails", "terminating T by %s failed: %v", c10PathName(c.Path), termErr)
+		r.fail("termination-call-fails", "terminating T by %s failed: %v", c10PathName(path), termErr)
 	}
-	if c.Path == c10PathParentDown {
+	if path == c10PathParentDown {
 		r.m[0].running = false
 	}
 	// completion: PostStop ran and the running flag is cleared (doStop clears it
@@ -575,8 +721,8 @@ func c10Exec(x *vfkit.X, c c10Case) {
 			return
 		}
 	}
-	if n := r.ta.postStops.Load(); n != 1 {
-		r.fail("watched-actor-poststop-count", "PostStop of the watched actor ran %d times", n)
+	if n := r.ta.postStops.Load(); n < 1 || n > r.ta.preStarts.Load() {
+		r.fail("watched-actor-poststop-count", "PostStop of the watched actor ran %d times, PreStart %d times", n, r.ta.preStarts.Load())
 	}
 
 	// ---- barrier + verdict: Terminated travels through the system mailbox
@@ -589,37 +735,11 @@ func c10Exec(x *vfkit.X, c c10Case) {
 			continue
 		}
 		name := r.acts[i].name
-		// Two probes: runTurn looks at the system mailbox and then at the user
-		// mailbox once per iteration, so ONE user message sent after a Terminated
-		// was enqueued can still overtake it (the worker may be between the two
-		// looks). The iteration after that user message serves the system mailbox
-		// first, so the second probe is behind every Terminated enqueued before
-		// the first one was sent.
-		if _, err := Ask(ctx, r.pids[i], &c10Probe{}, c10Cap); err != nil {
-			if errors.Is(err, gerrors.ErrRequestTimeout) {
-				x.Class("inconclusive_probe_timeout")
-				return
-			}
-			r.fail("probe-running-watcher-fails", "Ask(probe) to %s failed: %v (model: running)", name, err)
+		n, ok := r.tally(i, tPath)
+		if !ok {
+			return
 		}
-		resp, err := Ask(ctx, r.pids[i], &c10Probe{}, c10Cap)
-		if err != nil {
-			if errors.Is(err, gerrors.ErrRequestTimeout) {
-				x.Class("inconclusive_probe_timeout")
-				return
-			}
-			r.fail("probe-running-watcher-fails", "Ask(probe) to %s failed: %v (model: running)", name, err)
-		}
-		tally, _ := resp.(*c10Tally)
-		if tally == nil {
-			r.fail("probe-running-watcher-fails", "probe of %s answered %v", name, resp)
-		}
-		for p, n := range tally.ByPath {
-			if p != tPath && n > 0 {
-				r.fail("terminated-names-unwatched-actor", "%s received %d Terminated(%s); it only ever watched %s", name, n, p, tPath)
-			}
-		}
-		got := tally.ByPath[tPath]
+		got := n - mw.base
 		r.h.add("verdict: %s got %d Terminated (watching=%v ambiguous=%v)", name, got, mw.watching, mw.ambiguous)
 		role := "watcher"
 		if i == 0 {
@@ -627,7 +747,7 @@ func c10Exec(x *vfkit.X, c c10Case) {
 		}
 		switch {
 		case got > 1:
-			r.fail("terminated-delivered-twice-"+role, "%s received %d Terminated for %s by %s", name, got, tName, c10PathName(c.Path))
+			r.fail("terminated-delivered-twice-"+role, "%s received %d Terminated for %s by %s", name, got, tName, c10PathName(path))
 		case mw.unknown && !mw.ambiguous:
 			x.Class("watch_state_unspecified_after_restart")
 		case mw.ambiguous:
@@ -651,7 +771,7 @@ func c10Exec(x *vfkit.X, c c10Case) {
 			}
 			r.fail(fp, "%s watches %s (its last completed action before the termination was Watch) and is running, but received %d Terminated after termination by %s (watcher incarnation %d, watcher registered in the actor tree: %v)", name, tName, got, c10PathName(c.Path), mw.inc, inTree)
 		case !mw.watching && got != 0:
-			r.fail("terminated-after-unwatch-"+role, "%s does not watch %s (its last completed action was UnWatch / it never watched / it was restarted since) but received %d Terminated after termination by %s", name, tName, got, c10PathName(c.Path))
+			r.fail("terminated-after-unwatch-"+role, "%s does not watch %s (its last completed action was UnWatch / it never watched / it was restarted since) but received %d Terminated after termination by %s", name, tName, got, c10PathName(path))
 		}
 	}
 	if c.Watchers >= 2 {
@@ -676,7 +796,7 @@ func TestVF_C10_terminated(t *testing.T) {
 	})
 	vfkit.Run(t, vfkit.Spec[c10Case]{
 		ID: "C10", Unit: "terminated",
-		Rule: "cases = one watched actor (child of a harness parent) + 1..4 watcher actors on a real ActorSystem; a sequence of 0..10 completed actions (Watch/UnWatch through PID or through ReceiveContext in the watcher's turn, by a watcher or by the parent; watcher Restart; watcher Stop; traffic), then one of 8 termination paths released together with 0..3 concurrent Watch/UnWatch actions, under generated schedule noise; non-trivial = >= 2 watchers and (a completed UnWatch or an action concurrent with the termination); distinct = distinct programs",
+		Rule: "cases = one watched actor (child of a harness parent) + 1..4 watcher actors on a real ActorSystem; a sequence of 0..10 completed actions (Watch/UnWatch through PID or through ReceiveContext in the watcher's turn, by a watcher or by the parent; watcher Restart; watcher Stop; traffic; suspension of the watched actor by a failure without directive, its Reinstate, its supervised in-place restart), then one of 8 termination paths (the 5 outside-stop paths when the watched actor is suspended) released together with 0..3 concurrent Watch/UnWatch actions, under generated schedule noise; non-trivial = >= 2 watchers and (a completed UnWatch or an action concurrent with the termination); distinct = distinct programs",
 		Gen:  c10Gen, Exec: c10Exec,
 		ReplayReps: 50,
 	})
